@@ -314,6 +314,12 @@ def run(ck, facts):
     gb = mac.fn("gen_bridge")
     srcs = [n.get("src", "") for n in C.walk_inl(mac, C.fn_body(gb), max_nodes=1500) if n.get("k") == "macro" and n.get("name") in ("parse_quote", "quote")]
     n_repr = sum(1 for s in srcs if re.search(r"#\s*\[\s*repr\s*\(\s*C\s*\)\s*\]", s))
+    # the enum template (the one that also derives Clone, Copy) carries the literal attribute: the C/C++/Dart/Kotlin backends declare every bridge enum as a C `int`-sized
+    # enum whatever `repr` the user wrote, so the attribute may not depend on one (a second repr is a compile error, which is the safe outcome)
+    enum_tpls = [s_ for s_ in srcs if re.search(r"derive\s*\(\s*Clone\s*,\s*Copy\s*\)", s_)]
+    ck.expect(bool(enum_tpls) and all(re.search(r"#\s*\[\s*repr\s*\(\s*C\s*\)\s*\]", s_) for s_ in enum_tpls), "R5", "macro::gen_bridge/enum-repr(C)-unconditional", "%d enum templates" % len(enum_tpls),
+              "the template that rewrites a bridge enum no longer spells `#[repr(C)]` itself (it is interpolated or dropped): an enum with its own `#[repr(u8)]` compiles with a 1-byte "
+              "discriminant while every backend declares it `int`-sized", C.loc(gb))
     ck.expect(n_repr >= 2, "R5", "macro::gen_bridge/forces-repr(C)", "%d repr(C) templates" % n_repr, "gen_bridge no longer adds #[repr(C)] to structs and enums (found %d templates)" % n_repr, C.loc(gb))
 
     # by-value structs get #[repr(C)] unless they carry a `repr` of their own: the flag is set for the `repr` attribute only
